@@ -256,14 +256,15 @@ Definition arith (op : binop) (x y : Z) : res val :=
 Fixpoint repeat_str (s : str) (n : nat) : str :=
   match n with O => [] | S n => s ++ repeat_str s n end.
 
-(* ops.rs: <num op num>, <str + any>, <any + str>, <str * int>; nil on either side of an arithmetic
-   operator is "<Nil + Int> is invalid" *)
+(* ops.rs: <num op num>, <str + any>, <any + str> (concatenation of what print shows, so nil + "x" = "nilx");
+   nil on either side of an arithmetic operator is "<Nil + Int> is invalid" *)
 Definition binop_apply (op : binop) (cur x : val) : res val :=
   match op, cur, x with
   | _, VInt a, VInt b => arith op a b
   | Add, VStr a, VStr b => Ok (VStr (a ++ b))
   | Add, VStr a, VInt b => Ok (VStr (a ++ show_Z b))
   | Add, VInt a, VStr b => Ok (VStr (show_Z a ++ b))
+  | Add, VNil, VStr b => Ok (VStr (s_nil ++ b))
   | _, VNil, (VInt _ | VNil) | _, VInt _, VNil => Fail Err
   | _, _, _ => Fail Stuck
   end.
